@@ -232,14 +232,21 @@ def exposure_bound(tr, market, phase):
             w, l = O.selection_wpp(views)
             tr.counters["rule_bound"] += 1
             worst = max(0.0, -min(w, l))
-            if worst > st.max_selection_exposure + 0.011:
+            # a lay carried to the starting price (SP order, or a limit lay with MARKET_ON_CLOSE persistence) is matched at
+            # round(liability / (sp - 1), 2): its loss can exceed the liability it was accepted with by 0.005 x (sp - 1)
+            sp_slack = sum(
+                0.005 * max(0.0, (o.average_price_matched or 1.0) - 1.0)
+                for o in os_
+                if o.side == "LAY" and o.size_matched and (o.order_type.ORDER_TYPE.name != "LIMIT" or getattr(o.order_type, "persistence_type", None) == "MARKET_ON_CLOSE")
+            )
+            if worst > st.max_selection_exposure + 0.011 + sp_slack:
                 replaced = any(getattr(o, "_vf_replacement", False) for o in os_)
                 tr.violate("C01", "selection-loss-exceeds-limit", {"replaced": replaced, "phase": "settlement" if phase == "closed" else "update"}, views=views, worst=worst, limit=st.max_selection_exposure, tick=tr.tick, strategy=st.name)
             if phase == "closed":
                 loss = -sum(o.profit for o in os_)
                 # settlement works on the 2-dp average matched price (error <= 0.005 x matched per order, as in C08) and an SP lay is
                 # matched at round(liability / (sp - 1), 2)
-                slack = 0.02 + sum(0.005 * (o.size_matched or 0.0) for o in os_) + sum(0.005 * max(0.0, (o.average_price_matched or 1.0) - 1.0) for o in os_ if o.order_type.ORDER_TYPE.name != "LIMIT" and o.side == "LAY")
+                slack = 0.02 + sum(0.005 * (o.size_matched or 0.0) for o in os_) + sp_slack
                 tr.counters["rule_realised"] += 1
                 if loss > st.max_selection_exposure + slack:
                     replaced = any(getattr(o, "_vf_replacement", False) for o in os_)
